@@ -1,5 +1,7 @@
 """C09 - an automaton's three views stay coherent however it was built or edited (DESIGN.md section 3, C09)."""
 import copy
+import os
+import re
 import itertools
 import numpy as np
 from vf.api import bounded
@@ -199,14 +201,48 @@ def construction_routes(tier, rng, rep):
         if err:
             rep.fail("free_automaton_views", f"{gens}: {err}", {"generators": gens})
     for name in sorted(fsa.list_builtins()):
+        inp = {"builtin": name}
         try:
+            with open(os.path.join(os.path.dirname(fsa.__file__), fsa.BUILTIN_DIR, name)) as fh:
+                names, table, initial = _read_table(fh.read())
+            want = {i + 1: {names[j]: r[j] for j in range(len(names)) if r[j] != 0} for i, r in enumerate(table)}
             F = fsa.load_builtin(name)
-            err = coherence_error(F)
+            M1 = Model.from_graph_dict(want)
+            err = coherence_error(F, M1)
+            if not err and list(F.start_vertices) != [initial]:
+                err = f"start vertices {F.start_vertices} vs [{initial}]"
+            if not err:
+                # history over two automata obtained from the same file: each is its own object with its own history
+                v1 = sorted(M1.V)[-1]
+                F.delete_vertex(v1); M1.delete_vertex(v1)
+                F.add_vertices(["fresh"]); M1.add_vertices(["fresh"])
+                F.add_edges([("fresh", "fresh", names[0])]); M1.add_edge("fresh", "fresh", names[0])
+                inp["history"] = f"load, delete_vertex({v1}), add vertex and loop 'fresh'; load again; delete_vertex on the second"
+                F2 = fsa.load_builtin(name)
+                M2 = Model.from_graph_dict(want)
+                err = coherence_error(F2, M2) or coherence_error(F, M1)
+                if not err:
+                    v2 = sorted(M2.V)[0]
+                    F2.delete_vertex(v2); M2.delete_vertex(v2)
+                    err = coherence_error(F2, M2) or coherence_error(F, M1)
         except Exception as e:
             err = f"raised {type(e).__name__}: {e}"
         rep.case(key=("builtin", name))
         if err:
-            rep.fail("builtin_views", f"{name}: {err}", {"builtin": name})
+            rep.fail("builtin_file_table_and_own_history", f"{name}: {err}", inp)
+
+
+def _read_table(text):
+    """independent reader of a kbmag word-acceptor record: alphabet names, dense transition table, initial state"""
+    flat = re.sub(r"\s+", "", text)
+    names = [x.strip('"') for x in re.search(r"names:=\[([^\]]*)\]", flat).group(1).split(",")]
+    initial = int(re.search(r"initial:=\[(\d+)\]", flat).group(1))
+    body = re.search(r"transitions:=\[(.*?)\]\)", flat).group(1)
+    table = []
+    for r in re.findall(r"\[([^\[\]]*)\]", body):
+        m = re.fullmatch(r"(\d+)\.\.(\d+)", r)
+        table.append(list(range(int(m.group(1)), int(m.group(2)) + 1)) if m else [int(x) for x in r.split(",") if x != ""])
+    return names, table, initial
 
 
 def _print_record(rng, table, names, initial, style):
